@@ -699,6 +699,22 @@ example : InDomain (ofString "/usr/bin/bash") ∧ (ofString "/usr/bin/bash").all
   · intro b hb; simp [ofString] at hb; subst hb; decide
   · intro b hb; simp [ofString] at hb; subst hb; decide
 
+/-- **A syscall number the tables have no name for is left as the kernel wrote it** — in particular a
+negative one (`syscall=-1` after a seccomp trap or an interrupted restart): when the field is a valid
+decimal and the record has an arch, the step that resolves the name succeeds and changes nothing unless
+the number is non-negative *and* the arch's table has a name for it. -/
+theorem C12_syscall_without_name_is_kept (fm : FieldMap) (f a : Field) (n : Int)
+    (hf : fmFind fm (ofString "syscall") = some f) (hn : parseInt 10 64 f.value = some n)
+    (ha : fmFind fm (ofString "arch") = some a)
+    (h : n < 0 ∨ Tables.syscallName a.value n.toNat = none) : syscallStep fm = Res.ok fm := by
+  unfold syscallStep
+  simp only [hf, hn, ha]
+  rcases h with h | h
+  · simp [h]
+  · split
+    · rfl
+    · simp [h]
+
 end LA.Auparse
 
 /-! ### the code keeps nothing between calls that the model does not have -/
